@@ -17,6 +17,7 @@ gvars == <<vars, phase, want, turn, hist>>
 
 D3 == 737454
 DEarly == 737000
+DFar == 1094998                      \* 2999-01-01: a price entered for a day that has not come yet (a forecast)
 C3 == <<3, "EUR", D1, "">>
 CL == <<10, "USD", D1, "lot">>       \* same cost and date as C1, labelled: a different lot
 GenLots == { <<"USD", NoCost>>, <<"EUR", NoCost>>, <<"HOOL", NoCost>>, <<"HOOL", C1>>, <<"HOOL", C2>>,
@@ -27,7 +28,9 @@ PriceTables == <<
     {},
     { <<"HOOL", "USD", D1, 11>>, <<"HOOL", "USD", D3, 13>>, <<"USD", "EUR", D1, 2>>, <<"USD", "EUR", D3, 3>>,
       <<"AAPL", "EUR", D2, 4>> },
-    { <<"HOOL", "USD", D2, 7>>, <<"HOOL", "EUR", D1, 20>>, <<"USD", "EUR", D2, 5>> } >>
+    { <<"HOOL", "USD", D2, 7>>, <<"HOOL", "EUR", D1, 20>>, <<"USD", "EUR", D2, 5>> },
+    \* the latest price is dated after the day the query runs; AAPL and USD have no price before that day at all
+    { <<"HOOL", "USD", D1, 11>>, <<"HOOL", "USD", DFar, 17>>, <<"AAPL", "EUR", DFar, 4>>, <<"USD", "EUR", DFar, 3>> } >>
 FsSeq == << <<"units", "", 0>>, <<"cost", "", 0>>,
             <<"value", "", 0>>, <<"value", "", D2>>, <<"value", "", DEarly>>,
             <<"convert", "EUR", 0>>, <<"convert", "EUR", D2>>, <<"convert", "EUR", DEarly>>, <<"convert", "CAD", 0>> >>
